@@ -61,6 +61,9 @@ type OpEnv struct {
 	AddStr   func(a, b fmt.Stringer) string
 	EqAny    func(a, b interface{}) string
 	Pick     func(m Money) Money
+	AnyPick  interface{}                     // holds a func(Money) Money: a callee known only at run time
+	MatchTag func(a, b string) bool          // candidate for the operator "matches"
+	VarTwo   func(a Money, b ...Money) Money // two parameters, but variadic: ill-shaped
 	Sum      func(xs []int) int
 	// ill-shaped candidates
 	NotFunc  int
@@ -118,6 +121,9 @@ func newOpEnv(r *runner.Rng) *OpEnv {
 	e.AddStr = func(a, b fmt.Stringer) string { add("AddStr(%v,%v)", a, b); return a.String() + b.String() }
 	e.EqAny = func(a, b interface{}) string { add("EqAny(%v,%v)", a, b); return fmt.Sprintf("%v|%v", a, b) }
 	e.Pick = func(m Money) Money { add("Pick(%v)", m); return Money{m.Cents + 1, m.Cur} }
+	e.MatchTag = func(a, b string) bool { add("MatchTag(%q,%q)", a, b); return len(a) == len(b) }
+	e.VarTwo = func(a Money, b ...Money) Money { return a }
+	e.AnyPick = func(m Money) Money { add("AnyPick(%v)", m); return Money{m.Cents + 2, m.Cur} }
 	e.Sum = func(xs []int) int {
 		add("Sum(%v)", xs)
 		s := 0
@@ -151,6 +157,8 @@ var c17Tables = []opTable{
 	{"==": {"EqList", "EqMoney"}, "+": {"CatList", "AddMoney"}, "!=": {"EqList"}},
 	// one operator, one left type, two right types
 	{"+": {"AddMoney", "AddCents", "AddInts"}, "-": {"SubCents", "SubMoney"}, "*": {"MulMoney"}, "<": {"LtMoney"}},
+	// a word operator with a node kind of its own
+	{"matches": {"MatchTag"}, "+": {"AddMoney"}, "==": {"EqMoney"}},
 }
 
 // resolve returns the function the library must pick for op on (lt, rt), or "".
@@ -212,6 +220,10 @@ func (g *c17Gen) bin(op string, l, r *term.Term) (*term.Term, bool) {
 		}
 		if op == "+" && l.T == term.StrT && r.T == term.StrT {
 			return tt(term.KBinary, op, term.StrT, l, r), true
+		}
+	case "matches":
+		if l.T == term.StrT && r.T == term.StrT {
+			return tt(term.KBinary, op, term.BoolT, l, r), true
 		}
 	case "==", "!=", "<":
 		if (l.T == term.IntT && r.T == term.IntT) || (l.T == term.StrT && r.T == term.StrT) {
@@ -391,7 +403,12 @@ func (g *c17Gen) bool_(n int) *term.Term {
 		case 6:
 			// sequences: []int operands keep the built-in ==, IntList operands
 			// take an overload declared for IntList
-			switch r.Intn(3) {
+			switch r.Intn(4) {
+			case 3:
+				pat := &term.Term{K: term.KStr, Str: r.Pick([]string{"^a", "y$", "", "x."}), T: term.StrT}
+				if t, ok := g.bin("matches", g.str(n/2), pat); ok && t.T == term.BoolT {
+					return t
+				}
 			case 0:
 				if t, ok := g.bin("==", g.str(n/2), g.str(n/2)); ok && t.T == term.BoolT {
 					return t
@@ -434,6 +451,9 @@ func (g *c17Gen) top(n int) *term.Term {
 		body := g.mark("closure-body", g.money(n-2))
 		g.elems = g.elems[:len(g.elems)-1]
 		return tt(term.KBuiltin, "map", term.ArrT, g.id("Monies"), body)
+	case 9:
+		// argument of a callee whose type is only known at run time
+		return tt(term.KCall, "AnyPick", term.AnyT, g.mark("argument-of-dynamic-callee", g.money(n-1)))
 	case 8:
 		// an == overloaded with interface parameters also captures nil
 		if t, ok := g.bin(r.Pick([]string{"==", "!="}), g.id(r.Pick([]string{"S", "A", "M1", "T1"})), term.Nil()); ok {
@@ -622,7 +642,7 @@ func c17BadTables(c *runner.Ctx, idx uint64) {
 	bad := []struct{ op, fn, why string }{
 		{"+", "Missing", "missing member"}, {"+", "NotFunc", "non-function member"}, {"+", "OneArg", "one parameter"},
 		{"+", "ThreeArg", "three parameters"}, {"+", "TwoOut", "two results"}, {"+", "M1", "struct member"}, {"+", "log", "unexported member"},
-		{"-", "Scale", "name of a method of another type"}, {"+", "", "empty name"},
+		{"-", "Scale", "name of a method of another type"}, {"+", "", "empty name"}, {"+", "VarTwo", "variadic function"},
 	}
 	for _, b := range bad {
 		for _, src := range []string{"M1 + M2", "1", "A - B"} {
